@@ -87,6 +87,7 @@ type World struct {
 	Ctx      context.Context
 	Rng      *mrand.Rand
 	Inner    nodeenrollment.Storage
+	Alias    *AliasStorage
 	Rec      *RecStorage            // control/recording handle
 	Store    nodeenrollment.Storage // what the library is given (Rec behind a plain or NodeIdLoader facade)
 	CertKeys map[string]*CertKey
@@ -104,6 +105,31 @@ type World struct {
 	srvGen map[string]int
 	// AgeBoundary is the instant of the last AgeAll step
 	AgeBoundary time.Time
+}
+
+// AliasStorage lets the harness make the storage key of one activation token answer with the whole stored
+// record of another (what copying one record over another's key amounts to on a real back end).
+type AliasStorage struct {
+	nodeenrollment.Storage
+	TokenAlias map[string]*types.ServerLedActivationToken // storage key -> the record (a copy taken at transplant time) that answers
+}
+
+func (a *AliasStorage) Remove(ctx context.Context, m nodeenrollment.MessageWithId) error {
+	if t, ok := m.(*types.ServerLedActivationToken); ok {
+		delete(a.TokenAlias, t.Id)
+	}
+	return a.Storage.Remove(ctx, m)
+}
+
+func (a *AliasStorage) Load(ctx context.Context, m nodeenrollment.MessageWithId) error {
+	if t, ok := m.(*types.ServerLedActivationToken); ok {
+		if src, ok := a.TokenAlias[t.Id]; ok {
+			proto.Reset(t)
+			proto.Merge(t, src)
+			return nil
+		}
+	}
+	return a.Storage.Load(ctx, m)
 }
 
 type Config struct {
@@ -150,6 +176,8 @@ func New(cfg Config) (*World, error) {
 		}
 		inner = s
 	}
+	w.Alias = &AliasStorage{Storage: inner, TokenAlias: map[string]*types.ServerLedActivationToken{}}
+	inner = w.Alias
 	w.Inner = inner
 	w.Rec = NewRecStorage(inner, cfg.NodeIdLoader)
 	w.Store = w.Rec.AsStorage()
@@ -336,6 +364,7 @@ type FetchSpec struct {
 	NotAfter  time.Time
 	SignWith  string // cert key used to sign (default K)
 	PrevK     string // previous certificate key (none)
+	SelfInfo  bool   // the bundle carries a self-asserted registration-flow info for its own key and nonce
 }
 
 // BuildInfo assembles the signed-bundle content.
@@ -360,6 +389,9 @@ func (w *World) BuildInfo(fs FetchSpec) (*types.FetchNodeCredentialsInfo, error)
 	}
 	if fs.PrevK != "" && fs.PrevK != None {
 		info.PreviousCertificatePublicKeyPkix = w.EnsureCertKey(fs.PrevK).Pkix
+	}
+	if fs.SelfInfo {
+		info.WrappingRegistrationFlowInfo = &types.WrappingRegistrationFlowInfo{CertificatePublicKeyPkix: ck.Pkix, Nonce: w.NonceBytes(fs.Nonce)}
 	}
 	if fs.WrapW != "" && fs.WrapW != None {
 		regInfo := &types.WrappingRegistrationFlowInfo{
